@@ -1363,10 +1363,11 @@ def _calculate_divisions(
         other = new_collection(other).cat.as_ordered()._expr
 
     try:
-        divisions, mins, maxes = compute(
+        divisions, mins, maxes, has_nulls = compute(
             new_collection(RepartitionQuantiles(other, npartitions, upsample=upsample)),
             new_collection(other).map_partitions(M.min),
             new_collection(other).map_partitions(M.max),
+            new_collection(other).isna().any(),
         )
     except TypeError as e:
         # When there are nulls and a column is non-numeric, a TypeError is sometimes raised as a result of
@@ -1419,7 +1420,9 @@ def _calculate_divisions(
         mins = mins.astype(dtype)
         maxes = maxes.astype(dtype)
 
-    if mins.isna().any() or maxes.isna().any():
+    if mins.isna().any() or maxes.isna().any() or has_nulls:
+        # min and max skip nulls: partitions that hold nulls are not in order
+        # even when their valid values are
         presorted = False
     else:
         n = mins.size
